@@ -18,6 +18,7 @@ from harness.common import zlit, listlit
 VFILES = ['Model/Chunk.v', 'Proofs/ChunkProofs.v', 'Props/C09.v']
 ATTRS = ('sample_rate', 'start_time', 'center_freq', 'chan_bw', 'freq_align', 'pol_type', 'meta')
 COUNTER = []
+DATA = '/repo/tests/data/'
 
 HEADER = '''From Coq Require Import List Arith Bool ZArith. Import ListNotations.
 From PB Require Import Model.Chunk.
@@ -228,6 +229,62 @@ def run(ctx):
             rng.shuffle(order)
             items.append(f'chk {sum(sizes)} {listlit(sizes, str)} {listlit(order, str)}')
             meta.append(dict(inp=inp, impl=[sizes, order]))
+
+    # ---- reader calls: a lazy read is the eager read, also when the lazy reads of SEVERAL readers meet in one graph (difference,
+    # frequency concatenation, joint compute) -- the NumPy-backed twin of each expression is built from the eager reads
+    import glob
+    import pulsarbat.readers as pbr
+    fs = sorted(glob.glob(DATA + 'fake.*.raw'))
+    mk = [('guppi%d' % i, (lambda f: (lambda: pbr.GUPPIRawReader(f)))(f)) for i, f in enumerate(fs)] + \
+         [('dada_usb', lambda: pbr.BasebandReader(DATA + 'sample.dada')), ('dada_lsb', lambda: pbr.BasebandReader(DATA + 'sample.dada', lower_sideband=True)),
+          ('vdif_usb', lambda: pbr.BasebandReader(DATA + 'sample.vdif')), ('vdif_lsb', lambda: pbr.BasebandReader(DATA + 'sample.vdif', lower_sideband=True))]
+    readers = {}
+    for nm, f in mk:
+        try:
+            readers[nm] = f()
+        except Exception as e:
+            ctx.fail('reader_open_raised', dict(reader=nm), impl=repr(e))
+    groups = [[k for k in readers if k.startswith('guppi')], [k for k in readers if k.startswith('dada')], [k for k in readers if k.startswith('vdif')]]
+    for c in range(24 if ctx.tier == 'quick' else 240):
+        g = rng.choice([x for x in groups if len(x) >= 2])
+        a, b = rng.sample(g, 2)
+        ra, rb = readers[a], readers[b]
+        Lm = min(len(ra), len(rb))
+        n = rng.choice([16, 64, 128])
+        o = rng.randint(0, Lm - n)
+        how = rng.choice(['difference', 'sum_of_powers', 'joint_compute', 'concat_time_then_slice', 'single_transform'])
+        sch = rng.choice(['synchronous', 'threads'])
+        inp = dict(op='reader:' + how, readers=[a, b], offset=o, n=n, scheduler=sch)
+        ctx.seen(inp); ctx.count('op:reader:' + how)
+        try:
+            ea, eb = ra.read(o, n), rb.read(o, n)
+            la = ra.dask_read(o, n) if rng.random() < 0.5 else ra.read(o, n, use_dask=True)
+            lb = rb.dask_read(o, n) if rng.random() < 0.5 else rb.read(o, n, use_dask=True)
+            if not isinstance(la.data, da.Array) or not isinstance(lb.data, da.Array):
+                ctx.fail('result_not_dask_backed', inp)
+                continue
+            with dask.config.set(scheduler=sch):
+                if how == 'difference':
+                    got, want = np.asarray((la - lb).data.compute()), np.asarray((ea - eb).data)
+                elif how == 'sum_of_powers':
+                    got, want = np.asarray((np.abs(la) ** 2 + np.abs(lb) ** 2).data.compute()), np.asarray((np.abs(ea) ** 2 + np.abs(eb) ** 2).data)
+                elif how == 'joint_compute':
+                    ga, gb = dask.compute(la.data, lb.data)
+                    got, want = np.stack([ga, gb]), np.stack([np.asarray(ea.data), np.asarray(eb.data)])
+                elif how == 'concat_time_then_slice':
+                    lb2, eb2 = type(lb).like(lb, start_time=None), type(eb).like(eb, start_time=None)
+                    got = np.asarray(pb.concatenate([la, lb2]).data.compute())
+                    want = np.asarray(pb.concatenate([ea, eb2]).data)
+                else:
+                    got, want = np.asarray(pb.time_shift(la, 1.5).data.compute()), np.asarray(pb.time_shift(ea, 1.5).data)
+            mx = float(np.max(np.abs(want))) + 1e-300 if want.size else 1.0
+            e = float(np.max(np.abs(got - want))) if want.size else 0.0
+            tol = 2e-6 * mx
+            ctx.ratio(e, tol)
+            if got.shape != want.shape or got.dtype != want.dtype or not (e <= tol):
+                ctx.fail('dask_values_differ', inp, impl=e, model=tol)
+        except Exception as e:
+            ctx.fail('dask_path_raised', inp, impl=repr(e))
 
     res = ctx.run_cases(HEADER, items, shard=max(60, len(items) // 16 + 1))
     if res is None:
